@@ -360,7 +360,7 @@ def gen_cases(rng, tier):
         for role in "IA":
             mine = thorough or H <= 4 or (H % 2 == 0) == (role == "A")     # quick: alternate the roles over H
             if thorough or (mine and (H <= 6 or H % 3 != 1)):
-                for d in DELTAS:
+                for d in (DELTAS if thorough or H <= 10 else [-1, 0, NS - 1]):
                     add(hb_boundary(rng, role, H, d), "hb-boundary")
             if mine:
                 for d in (DELTAS if thorough or H <= 6 or H % 10 == 0 else [-1, 0]):
